@@ -249,6 +249,36 @@ class Binding:
         module.open = lambda path, mode="r", *a, **kw: self.fs.open(path, mode, *a, **kw)
 
 
+def keep_caches(module_prefix):
+    """CrossHair calls every functools.lru_cache'd function with the cache skipped (libimpl/functoolslib), so state
+    that the code under test keeps in such a cache between two calls is invisible to the symbolic run (it shows
+    only in the native replays).  For functions of `module_prefix` called with concrete arguments the real cache
+    is used, as in CPython; the wrapped function then runs on concrete values, without the tracer.  Calls with a
+    symbolic argument keep CrossHair's behaviour (hashing would realise the value)."""
+    import crosshair.core_and_libs  # noqa: registrations first
+    from crosshair import core
+    from crosshair.core import NoTracing
+    from crosshair.util import CrossHairValue
+    from functools import _lru_cache_wrapper
+
+    real_call = _lru_cache_wrapper.__call__
+    skipping = core._PATCH_REGISTRATIONS[real_call]
+    if getattr(skipping, "keeps_for", None) is not None:       # already installed
+        skipping.keeps_for.add(module_prefix)
+        return
+
+    def call(self, *a, **kw):
+        with NoTracing():
+            if (isinstance(self, _lru_cache_wrapper)
+                    and any(str(self.__wrapped__.__module__).startswith(p) for p in call.keeps_for)
+                    and not any(isinstance(v, CrossHairValue) for v in a)
+                    and not any(isinstance(v, CrossHairValue) for v in kw.values())):
+                return real_call(self, *a, **kw)
+        return skipping(self, *a, **kw)
+    call.keeps_for = {module_prefix}
+    core._PATCH_REGISTRATIONS[real_call] = call
+
+
 def validate_fs(tree, maxlen=5):
     """FakeFS.exists/isfile == the operating system's on the same tree written to a scratch
     directory, for every absolute path '/' + s, s over the characters of the tree's names and
